@@ -3,7 +3,7 @@
    Only ExtrOcamlBasic is used: nat, Z, positive stay the extracted inductive types. *)
 From Coq Require Import List ZArith Extraction ExtrOcamlBasic.
 From LMBase Require Import Res ListX IEEE.
-From LMTfm Require Import TfmNum TfmModel TfmOrd TfmConv.
+From LMTfm Require Import TfmNum TfmModel TfmOrd TfmFinal TfmConv.
 
 Definition f64_pv_run := @pv_run F64.t NumF64.
 Definition f64_sc_run := @sc_run F64.t NumF64.
@@ -12,6 +12,8 @@ Definition f64_sc_run := @sc_run F64.t NumF64.
 Definition f64_pv_run_ord := @pv_run_ord F64.t NumF64.
 Definition f64_sc_run_ord := @sc_run_ord F64.t NumF64.
 Definition f64_ords_ok := @ords_ok F64.t.
+(* pvalue() / score() on a run: the last iteration when converged (TfmFinal.v) *)
+Definition f64_final_of_run := @final_of_run F64.t.
 Definition f64_window0 := @score_window0 F64.t NumF64.
 Definition f64_recompute := @recompute F64.t NumF64.
 Definition f64_lookup_score := @lookup_score F64.t NumF64.
@@ -27,7 +29,7 @@ Definition f32_is_neg_inf := F32.is_neg_inf.
 
 Extraction Language OCaml.
 Extraction "tfm_model.ml"
-  f64_pv_run f64_sc_run f64_pv_run_ord f64_sc_run_ord f64_ords_ok f64_window0 f64_recompute f64_lookup_score f64_ls_flags f64_tenth_c f64_ten_c
+  f64_pv_run f64_sc_run f64_pv_run_ord f64_sc_run_ord f64_ords_ok f64_final_of_run f64_window0 f64_recompute f64_lookup_score f64_ls_flags f64_tenth_c f64_ten_c
   f32_of_bits f64_of_bits f64_to_bits f64_of_f32 f64_div f32_is_neg_inf
   f64_to_dy f32_to_dy dy_add dy_sub dy_mul dy_leb dy_ltb dy_ofZ
   perm_ok perm_stable new_panics enum_dy conv_dy tail_dy below_dy c12_check c13_check tol_bg
